@@ -4,7 +4,8 @@
 //!   A   the same users, storage in memory (session key K_A), the process user mapped to role `peer`
 //!   B2  B restarted on the same storage with an edited configuration (one user removed, one demoted)
 //!   C   auth_type = "admin-token"
-//!   F   (only with --f20b 1) two user names that differ only by Unicode normalisation
+//!   F   two user names that differ only by Unicode normalisation
+//! B2 and F are the regression scenarios of the repaired findings F20c / F20d and F20b (switch off with --f20x 0).
 //! Every probe (a request with some credential, or a login attempt) becomes a Coq `case` for authn/AuthCheck.v.
 use std::collections::{BTreeMap, BTreeSet};
 use std::io::Write as _;
@@ -274,9 +275,9 @@ mod httpd {
 
 
 // ===================================================================================================
-// forge: what two session tokens with the same key and nonce give away (candidate F20d). Poly1305 one-time key
-// recovery from two tags (roots of the difference polynomial over GF(2^130-5)), key stream from one known
-// plaintext, then a token with a chosen session. Only used with `--f20d 1`.
+// forge: what two session tokens with the same key and nonce give away (finding F20d, repaired by e31fb922).
+// Poly1305 one-time key recovery from two tags (roots of the difference polynomial over GF(2^130-5)), key stream
+// from one known plaintext, then a token with a chosen session. Runs only when a restarted daemon repeats a nonce.
 // ===================================================================================================
 mod forge {
     use openssl::bn::{BigNum, BigNumContext};
@@ -765,6 +766,18 @@ impl Recorder {
     }
 }
 
+impl Recorder {
+    fn nonce(&mut self, d: &str, repeated: bool, info: Value) {
+        let term = format!("mkCase {d} Tcp (PNonceRepeat {repeated}) 0 None None");
+        let idx = self.w.total;
+        self.w.push(term);
+        self.distinct.insert(format!("{d} nonce"));
+        let rec = json!({"index": idx, "daemon": d, "probe": "nonce of the first token of this life against the first token of the first life", "repeated": repeated, "observed": info,
+            "class": {"probe": "nonce", "scenario": "nonce-reuse", "outcome": if repeated { "repeated" } else { "fresh" }}});
+        writeln!(self.jsonl, "{rec}").unwrap();
+    }
+}
+
 // --------------------------------------------------------------------------------------------------- talking to a daemon
 
 async fn admin_req(c: &mut Client, admin: &str, method: &str, path: &str, body: Option<&[u8]>) -> (u16, Vec<u8>) {
@@ -886,10 +899,10 @@ fn run(args: &Args) -> i32 {
     let n_random_garbage = args.get_u64("random_garbage", if thorough { 200 } else { 30 }) as usize;
     let sweep_routes = args.get_u64("sweep_routes", 1000) as usize;
     let reps_per_class = args.get_u64("reps_per_class", if thorough { 6 } else { 1 }) as usize;
-    // candidate findings: the generator modes that show them are off until the lead lists them in known_findings.json
-    let f20b = args.get_u64("f20b", 0) == 1;   // two user names with the same normal form
-    let f20c = args.get_u64("f20c", 0) == 1;   // a token outlives the removal / demotion of its user (restart with edited configuration)
-    let f20d = args.get_u64("f20d", 0) == 1;   // nonce reuse under the same key after a restart (reported as impl failure)
+    // regression scenarios of the repaired findings (on by default)
+    let f20b = args.get_u64("f20b", 1) == 1;   // two user names with the same normal form (a6855108)
+    let f20c = args.get_u64("f20c", 1) == 1;   // tokens after the removal / demotion of their user (restart with edited configuration, a7a0b51d)
+    let f20d = args.get_u64("f20d", 1) == 1;   // nonces after a restart on the same storage (e31fb922); a repeated nonce is used to forge a token
     let bad_salt = args.get_u64("bad_salt", 1) == 1;
 
     let out_abs = args.out.canonicalize().expect("out dir");
@@ -919,7 +932,9 @@ fn run(args: &Args) -> i32 {
     ];
     let user = |cred: u64, id: &str, pw: &str, role: &str| UserDef { id: id.into(), password: pw.into(), role: role.into(), salt_name: id.into(), salt_text: None, cred };
     let mut users = vec![user(1, "alice", "pwA", "admin"), user(2, "bob", "pwB", "readwrite"), user(3, "carol", "pwC", "readonly"),
-                         user(4, "dave", "pwD", "nologin"), user(5, "erin", "pwE", "ghost"), user(6, zoe_nfc, "pwZ", "readonly")];
+                         user(4, "dave", "pwD", "nologin"), user(5, "erin", "pwE", "ghost"), user(6, zoe_nfc, "pwZ", "readonly"),
+                         // an administrator who never logs in (and stays configured after the restart of B)
+                         user(8, "olga", "pwO", "admin")];
     if bad_salt { users.push(UserDef { salt_text: Some("zz-not-hex".into()), ..user(7, "frank", "pwF", "readonly") }); }
 
     let spec_a = DaemonSpec { dir: out_abs.join("daemon-a"), tag: "a".into(), auth_type: "config-file", admin_token: admin_a.clone(), roles: roles.clone(),
@@ -946,7 +961,7 @@ fn run(args: &Args) -> i32 {
     let models = vec![
         Model { def: "dA".into(), spec: spec_a.clone(), key: 1, prior: "[]".into(), first: None },
         Model { def: "dB".into(), spec: spec_b.clone(), key: 2, prior: "[]".into(), first: None },
-        Model { def: "dB2".into(), spec: spec_b2.clone(), key: 2, prior: "[ORestart cfg_dB2]".into(), first: Some(spec_b.clone()) },
+        Model { def: "dB2".into(), spec: spec_b2.clone(), key: 2, prior: "[ORestart cfg_dB2 1]".into(), first: Some(spec_b.clone()) },
         Model { def: "dC".into(), spec: spec_c.clone(), key: 3, prior: "[]".into(), first: None },
         Model { def: "dF".into(), spec: spec_f.clone(), key: 4, prior: "[]".into(), first: None },
     ];
@@ -1175,7 +1190,7 @@ fn run(args: &Args) -> i32 {
             let c = Cred { coq: format!("(CToken dA {} {})", cs(u), cs(p)), header: Some(bearer(&a_tokens[u])), class: "other-instance", what: format!("session token of {u} issued by the other instance") };
             cx.quick_probes(&mut rec, &c).await;
         }
-        // F20c: alice was removed, bob demoted
+        // regression F20c: alice was removed, bob demoted
         {
             cx.scenario = "stale-config";
             let stale: Vec<Cred> = [("alice", "pwA", "removed from the configuration"), ("bob", "pwB", "demoted to readonly")].iter().map(|(u, p, w)|
@@ -1189,7 +1204,7 @@ fn run(args: &Args) -> i32 {
                 seen.push(json!({"credential": c.what, "GET /api/v1/authorized": r.status, "GET /api/v1/pubd/publishers (needs pub-admin)": r2.status}));
             }
             observations.insert("tokens_after_config_change".into(), json!({"probes": seen, "cases_recorded": f20c,
-                "note": "the role NAME travels in the token (config_file.rs:268-273) and is looked up in the current role table (config_file.rs:105-119); the user table is not consulted again"}));
+                "note": "config_file.rs:105-127 looks the user of a session up in the current user table: a removed user's token is refused, a demoted user acts with the new role (the role name in the token is ignored)"}));
             cx.scenario = "restart";
         }
         // login works as configured now; carol (read-only) is the first to log in, as she was in the first life
@@ -1209,15 +1224,16 @@ fn run(args: &Args) -> i32 {
                 let common_prefix = x.iter().take_while(|b| **b == 0).count();
                 let mut obs = json!({"first_token_of_first_life_nonce": hex::encode(&n1[..12.min(n1.len())]), "first_token_after_restart_nonce": hex::encode(&n2[..12.min(n2.len())]),
                     "same_key_same_nonce": same_nonce, "ciphertext_xor_zero_prefix_bytes": common_prefix,
-                    "note": "crypt.rs:165-183 stores the nonce state when the key is created (counter 0) and reads that stored state at every start; equal nonces under one ChaCha20-Poly1305 key reveal the XOR of the plaintexts, and the one-time Poly1305 key repeats"});
+                    "note": "crypt.rs:165-186 keeps the stored key and draws a new random sender id at every start; equal nonces under one ChaCha20-Poly1305 key would reveal the XOR of the plaintexts and repeat the one-time Poly1305 key"});
+                if f20d { rec.nonce("dB2", same_nonce, json!({"first_life": hex::encode(&n1[..12.min(n1.len())]), "this_life": hex::encode(&n2[..12.min(n2.len())])})); }
                 if same_nonce && f20d {
                     cx.scenario = "nonce-reuse";
                     impl_failures.push(json!({"index": null, "class": {"probe": "restart", "scenario": "nonce-reuse"}, "what": "after a restart on the same storage the first session token is encrypted under the same key and the same 96-bit nonce as the first token of the previous run"}));
                     // what the read-only user carol can do with her two tokens
-                    match forge::forge(&n1, &n2, "carol", "readonly", b_first_time, now, "mallory", "admin") {
+                    match forge::forge(&n1, &n2, "carol", "readonly", b_first_time, now, "olga", "admin") {
                         Some((raw, how)) => {
                             let forged = base64::engine::general_purpose::STANDARD.encode(&raw);
-                            let c = bad("BForged", "forged", bearer(&forged), "token for user_id mallory, role admin, computed from carol's two tokens (same key and nonce) without the key".into());
+                            let c = bad("BForged", "forged", bearer(&forged), "token for the administrator olga (who never logged in), computed from the read-only user carol's two tokens (same key and nonce) without the key".into());
                             cx.quick_probes(&mut rec, &c).await;
                             let r = cx.tcp.request("GET", "/api/v1/pubd/publishers", c.header.as_deref(), None).await;
                             rec.req("dB2", "Tcp", &c, "GET", &["api".into(), "v1".into(), "pubd".into(), "publishers".into()], "/api/v1/pubd/publishers", true, r.status, None, "nonce-reuse");
@@ -1259,7 +1275,7 @@ fn run(args: &Args) -> i32 {
     });
     daemon_c.stop();
 
-    // ================================================================== F (candidate F20b): names with the same normal form
+    // ================================================================== F (regression F20b): names with the same normal form
     if f20b {
         let daemon_f = httpd::start(&spec_f, &mut hashes);
         rt.block_on(async {
@@ -1294,7 +1310,7 @@ fn run(args: &Args) -> i32 {
     let stats = json!({
         "evaluations": evaluations,
         "distinct_nontrivial": rec.distinct.len(),
-        "rule": "one case per probe. Request probes: a credential x transport (TCP, Unix socket) x route. Credentials: none; the admin token; session tokens of four users; those with blanks around; headers the daemon does not read as a bearer; a logged-out token; tokens derived from two valid ones by truncation (17+ cuts), single-bit flips of the base64 text (every bit of every character of one token; of a second token a seeded sample, thorough: of three more tokens every bit), re-encodings (padding removed / added, URL-safe alphabet, blanks or a tab inside, percent-encoding, every combination of stray trailing bits), extensions; invented strings (fixed list, base64 of random bytes, a session in clear behind a zero nonce and tag), near misses of the admin token; tokens and admin token of a second instance with another key; tokens of a first life presented after a restart with an edited configuration. Every credential gets GET /api/v1/authorized and a state-changing POST /api/v1/cas/ca1/routes (whose audit actor is read back from the CA history) on both transports; representatives of every class get a sweep over every route of the table regenerated by t_routes.py (thorough: more representatives per class). Login probes: every configured user with the right password, wrong passwords, unknown users, names differing by case / blanks / NFC-NFD / compatibility characters, malformed Basic headers, seeded name x password pairs. Non-trivial: a request probe on a route with a gate that carries some credential, or a login probe; distinct by (daemon, transport, header bytes, method, path) resp. (daemon, name, password).",
+        "rule": "one case per probe. Request probes: a credential x transport (TCP, Unix socket) x route. Credentials: none; the admin token; session tokens of four users; those with blanks around; headers the daemon does not read as a bearer; a logged-out token; tokens derived from two valid ones by truncation (17+ cuts), single-bit flips of the base64 text (every bit of every character of one token; of a second token a seeded sample, thorough: of three more tokens every bit), re-encodings (padding removed / added, URL-safe alphabet, blanks or a tab inside, percent-encoding, every combination of stray trailing bits), extensions; invented strings (fixed list, base64 of random bytes, a session in clear behind a zero nonce and tag), near misses of the admin token; tokens and admin token of a second instance with another key; tokens of a first life presented after a restart with an edited configuration (user unchanged / removed / demoted); logins and tokens of two users whose names have the same normal form; the nonce of the first token after a restart against the nonce of the first token of the first life (a repeated nonce is turned into a forged admin token and presented). Every credential gets GET /api/v1/authorized and a state-changing POST /api/v1/cas/ca1/routes (whose audit actor is read back from the CA history) on both transports; representatives of every class get a sweep over every route of the table regenerated by t_routes.py (thorough: more representatives per class). Login probes: every configured user with the right password, wrong passwords, unknown users, names differing by case / blanks / NFC-NFD / compatibility characters, malformed Basic headers, seeded name x password pairs. Non-trivial: a request probe on a route with a gate that carries some credential, or a login probe; distinct by (daemon, transport, header bytes, method, path) resp. (daemon, name, password).",
         "samples": rec.samples,
         "status_by_credential_class_distribution": rec.status_by_class,
         "credential_class_distribution": rec.class_hist,
@@ -1305,7 +1321,7 @@ fn run(args: &Args) -> i32 {
         "routes_swept": if sweep_routes >= all_routes.len() { all_routes.len() } else { sample_routes.len() },
         "non_genuine_bearers_served_over_tcp": reenc_accepted,
         "observations": observations,
-        "candidate_modes": {"f20b": f20b, "f20c": f20c, "f20d": f20d},
+        "regression_scenarios": {"f20b": f20b, "f20c": f20c, "f20d": f20d},
         "timings_s": timings,
         "impl_failures": impl_failures,
     });
